@@ -219,6 +219,8 @@ func (p *ParametersLiteral) UnmarshalJSON(b []byte) (err error) {
 		return err
 	}
 
+	p.Xs, p.Xe = nil, nil // "null" means no distribution, not "keep the receiver's"
+
 	if aux.Xs != nil {
 		if p.Xs, err = ring.ParametersFromMap(aux.Xs); err != nil {
 			return err
